@@ -12,6 +12,7 @@ import GoRes.Driver.SendReq
 import GoRes.Driver.QE
 import GoRes.Driver.Legacy
 import GoRes.Driver.Crash
+import GoRes.Driver.QH
 /-! `gores-driver <domain>`: one op line in, one line `model<TAB>spec<TAB>tag` out. -/
 open GoRes GoRes.Wire
 
@@ -22,6 +23,7 @@ structure DState where
   idx : GoRes.Driver.Idx.St := {}
   qe : GoRes.Driver.QE.DSt := {}
   legacy : GoRes.Driver.Legacy.DSt := {}
+  qh : GoRes.Driver.QH.St := {}
 
 def stepLine (dom : String) (st : DState) (full : String) : DState × String :=
   -- a line is `op` or `op<TAB>implementation outcome`
@@ -51,7 +53,7 @@ def stepLine (dom : String) (st : DState) (full : String) : DState × String :=
       -- each property judges only the operations it is about (the model is compared on all of them)
       let op := (fields.headD "")
       let keep := match dom with
-        | "idx11" => ["create", "update", "delete", "value", "exists", "createbad"].contains op
+        | "idx11" => ["create", "update", "delete", "value", "exists", "createbad", "txn", "excl", "hist"].contains op
         | "idx12" => ["init", "rebuild", "query"].contains op
         | "idx13" => ["query"].contains op
         | "idx14" => ["flush"].contains op
@@ -69,6 +71,9 @@ def stepLine (dom : String) (st : DState) (full : String) : DState × String :=
       if impl == "done-idle" then (st, "done-idle\tdone-idle\trace-q-idle")
       else if line.startsWith "raceq" then (st, "done\tdone\trace-q-active")
       else (st, "done\tdone\trace-scenario")
+    | "qh" =>
+      let (qs, m, s, t) := GoRes.Driver.QH.run st.qh args impl
+      ({ st with qh := qs }, m ++ "\t" ++ s ++ "\t" ++ t)
     | "legacy" =>
       let (ls, m, s, t) := GoRes.Driver.Legacy.run st.legacy args
       ({ st with legacy := ls }, m ++ "\t" ++ s ++ "\t" ++ t)
